@@ -144,6 +144,9 @@ pub enum Quiescence {
     ParkedForGood { tids: Vec<u32>, samples: u32, span_ms: u64 },
     /// Still making progress (or could be) when the budget ran out.
     Active,
+    /// A library thread has consumed this much CPU time while nothing it is supposed to do happened (no event of the
+    /// wrapped sink, the handler or the hooks was logged meanwhile): it spins.
+    Spinning { tid: u32, cpu_ms: u64 },
 }
 
 /// Watches the library threads until `done()` returns true (returns `None`), or until one of the two
